@@ -35,7 +35,7 @@ type c10Case struct {
 func c10Cases() []c10Case {
 	var cs []c10Case
 	for _, mon := range []bool{false, true} {
-		for _, f := range []string{"read-syscall", "read-other", "write-syscall", "write-other", "write5-syscall", "write5-other", "timeouts", "link-change", "link-change-then-close", "link-change+rs", "link-change-at-tx"} {
+		for _, f := range []string{"read-syscall", "read-other", "write-syscall", "write-other", "write5-syscall", "write5-other", "timeouts", "link-change", "link-change-then-close", "link-change+rs", "link-change-at-tx", "isolated-timeouts"} {
 			if mon && strings.HasPrefix(f, "write") {
 				continue
 			}
@@ -156,6 +156,16 @@ func c10Scenario(c c10Case) *vsched.Scenario {
 					for i := 0; i < 5; i++ {
 						inject(inMsg{err: timeoutErr{}})
 					}
+				case "isolated-timeouts":
+					// Eight receive timeouts, each followed by a successfully received message:
+					// every one is retried and none counts as an error (the budget of 5 is per
+					// receive, not per connection).
+					for i := 0; i < 8; i++ {
+						inject(inMsg{err: timeoutErr{}})
+						vsched.Sleep(300 * time.Millisecond)
+						inject(rsFrom(fmt.Sprintf("fe80::%x", 0x20+i), true))
+						vsched.Sleep(300 * time.Millisecond)
+					}
 				case "link-change", "link-change-at-tx":
 					vsched.Send("harness:link-change", watchC, netstate.LinkDown)
 				case "link-change+rs":
@@ -270,6 +280,14 @@ func c10Scenario(c c10Case) *vsched.Scenario {
 			}
 		}
 		switch {
+		case c.Fault == "isolated-timeouts":
+			// Not a failure at all: the task keeps its connection and keeps running.
+			if closeIdx >= 0 && closeIdx < endIdx || open1Idx >= 0 {
+				bad("C10:torn-down-without-failure", "isolated, successfully retried receive timeouts: the connection was closed / re-dialled (closed=%t re-dialled=%t returned=%q)", closeIdx >= 0, open1Idx >= 0, retDetail)
+			}
+			if retIdx >= 0 && retIdx < endIdx {
+				bad("C10:torn-down-without-failure", "isolated, successfully retried receive timeouts: Run returned %q", retDetail)
+			}
 		case c.CancelAt != "":
 			// Cancellation: prompt clean return, whatever state the task is in.
 			if retIdx < 0 || retIdx < cancelIdx {
@@ -350,7 +368,7 @@ func c10Scenario(c c10Case) *vsched.Scenario {
 func TestVerifC10(t *testing.T) {
 	r := ev.Begin("C10", "teardown")
 	defer r.End(t)
-	r.Rule = "executions = goroutine schedules within the deviation bound of the instrumented real Advertiser and Monitor (real Dialer, real dial() over fakes) with one fault injected while running: ReadFrom error (syscall / other), 3rd WriteTo error (syscall / other), five receive timeouts, a link-state change (also followed by the watcher halting, together with a solicitation, and at the instant a held-back multicast RA is due; the last two also at bound 2 in the quick tier); x re-dial answers {ok, link-not-ready once}; x cancellation {none, right after the fault, during the back-off}; oracle on the ordered log: recoverable => old connection cleaned up (left group + closed once) then a new one opened within 1s, given an initial RA, a periodic RA and an answer to a solicitation sent after the re-dial, unrecoverable => Run returns an error within 1s after cleanup, never any I/O on the old connection after close / re-dial / return, cancellation => return within 1s (nil during back-off)"
+	r.Rule = "executions = goroutine schedules within the deviation bound of the instrumented real Advertiser and Monitor (real Dialer, real dial() over fakes) with one fault injected while running: ReadFrom error (syscall / other), 3rd WriteTo error (syscall / other), five receive timeouts, eight isolated receive timeouts each followed by a received message (no failure: nothing may be torn down), a link-state change (also followed by the watcher halting, together with a solicitation, and at the instant a held-back multicast RA is due; the last two also at bound 2 in the quick tier); x re-dial answers {ok, link-not-ready once}; x cancellation {none, right after the fault, during the back-off}; oracle on the ordered log: recoverable => old connection cleaned up (left group + closed once) then a new one opened within 1s, given an initial RA, a periodic RA and an answer to a solicitation sent after the re-dial, unrecoverable => Run returns an error within 1s after cleanup, never any I/O on the old connection after close / re-dial / return, cancellation => return within 1s (nil during back-off)"
 	opts := exploreOpts{Bound: 1}
 	if r.Thorough() {
 		opts.Bound = 2
